@@ -518,12 +518,14 @@ pub fn run(ctx: &crate::RunCtx) -> (Summary, Vec<Violation>) {
         sum.cases += 1;
         *sum.ops_hist.entry(case_kind(&case).into()).or_default() += 1;
         let before: u64 = stats.fired.values().sum();
+        let ops0 = stats.ops;
         match exec_case(&case, &mut stats) {
             Ok(Some(v)) => {
+                sum.note(i, (stats.ops - ops0) ^ fnv(&v.class) ^ fnv(&v.site));
                 *sum.classes.entry(v.class.clone()).or_default() += 1;
                 viols.push(v);
             }
-            Ok(None) => {}
+            Ok(None) => sum.note(i, stats.ops - ops0),
             Err(e) => crate::harness_error(&e),
         }
         let fired_now = stats.fired.values().sum::<u64>() > before;
